@@ -2,7 +2,8 @@
 """C10 translator (round 4): re-reads on every run the BODIES of the public entry points of C10,
 
     float/src/round_ops.rs   FBig::{trunc, split_at_point_internal, split_at_point, fract, ceil, floor, round}
-    float/src/convert.rs     FBig::to_int, Repr::to_int
+    float/src/convert.rs     FBig::to_int, Repr::to_int, the condition under which FBig::with_precision rounds
+    float/src/repr.rs        Context::repr_round, Context::repr_round_ref
 
 and renders them as Gallina functions over (p, s, e) = (context precision, significand, exponent) with values in
 `result _` (the finiteness assertion and the debug assertion of round_fract are the only panics) -> coq/gen/RoundOpsGen.v.
@@ -50,14 +51,18 @@ class Cps:
         return None
 
     FIELDS_FBIG = {("self", "repr", "exponent"): ("e", "Z"), ("self", "repr", "significand"): ("s", "Z"),
-                   ("self", "context", "precision"): ("p", "Z"), ("self", "repr"): ("<repr>", "repr"), ("self",): ("(s, e, p)", "fl")}
+                   ("self", "context", "precision"): ("p", "Z"), ("self", "repr"): ("<repr>", "repr"), ("self",): ("(s, e, p)", "fl"),
+                   ("self", "context"): ("<ctx>", "ctx")}
     FIELDS_REPR = {("self", "exponent"): ("e", "Z"), ("self", "significand"): ("s", "Z"), ("self",): ("<repr>", "repr")}
+    # Context::repr_round(&self, repr): self is the Context, the Repr is the parameter
+    FIELDS_CTX = {("self", "precision"): ("p", "Z"), ("self",): ("<ctx>", "ctx"), ("repr", "exponent"): ("e", "Z"),
+                  ("repr", "significand"): ("s", "Z"), ("repr",): ("<repr>", "repr")}
 
     def field(self, e):
         c = self.chain(e)
         if c is None:
             return None
-        tab = self.FIELDS_FBIG if self.kind == "fbig" else self.FIELDS_REPR
+        tab = {"fbig": self.FIELDS_FBIG, "repr": self.FIELDS_REPR, "ctx": self.FIELDS_CTX}[self.kind]
         return tab.get(tuple(c))
 
     # ---------------------------------------------------------------- pure expressions (value text, type)
@@ -72,7 +77,9 @@ class Cps:
         f = self.field(e)
         if f is not None:
             if f[1] == "repr":
-                raise T.Unsupported("the Repr as a value")
+                return ("<repr>", "reprval")
+            if f[1] == "ctx":
+                raise T.Unsupported("the Context as a value")
             return f
         if k == "var":
             if e[1] in self.env:
@@ -119,8 +126,16 @@ class Cps:
             name, args = e[1], e[2]
             recv = args[0]
             rf = self.field(recv)
+            if rf is not None and rf[1] == "ctx":
+                if name == "is_limited":
+                    return ("(negb (p =? 0))", "bool")                  # Context::is_limited: precision != 0
+                raise T.Unsupported("method %s of the context" % name)
             if rf is not None and rf[1] in ("repr", "fl"):
                 # methods of the Repr / of self
+                if name == "digits" and rf[1] == "repr":
+                    return ("(dlen B s)", "Z")                          # Repr::digits = digit_len of the significand
+                if name == "clone" and rf[1] == "repr":
+                    return ("<repr>", "reprval")
                 if name == "smaller_than_one" and rf[1] == "repr":
                     return ("(smaller_than_one digits_ub s e)", "bool")
                 if name == "digits_ub" and rf[1] == "repr":
@@ -170,11 +185,19 @@ class Cps:
                 b, _ = self.pure(args[1])
                 return ("(split_digits B %s %s)" % (a, b), "tuple:Z,Z")
             if name == "Exact":
-                a, _ = self.pure(args[0])
+                a, ta = self.pure(args[0])
+                if ta == "reprval":
+                    return ("(AExact s e)", "approx")
+                if ta != "Z":
+                    raise T.Unsupported("Exact of " + ta)
                 return ("(IExact %s)" % a, "iapprox")
             if name == "Inexact":
-                a, _ = self.pure(args[0])
+                a, ta = self.pure(args[0])
                 b, _ = self.pure(args[1])
+                if ta == "se":
+                    return ("(ainexact_se %s %s)" % (a, b), "approx")
+                if ta != "Z":
+                    raise T.Unsupported("Inexact of " + ta)
                 return ("(IInexact %s %s)" % (a, b), "iapprox")
             raise T.Unsupported("call " + name)
         if k == "match":
@@ -328,7 +351,9 @@ def render_ops(repo):
            "From Dashu Require Import Base.Prelude Float.RoundSpec Float.Contract Float.Model Float.RoundOpsModel Float.RoundOpsDeep.",
            "From DashuGen Require Import RoundTables.", "Open Scope Z_scope.", "", "Section RoundOpsGen.", "Variable B : Z.",
            "Variable digits_ub : Z -> Z.", "(* Round::round_fract behind its debug assertion *)",
-           "Variable rfchk : mode -> Z -> Z -> Z -> result rounding.", ""]
+           "Variable rfchk : mode -> Z -> Z -> Z -> result rounding.", "",
+           "(* Inexact(Repr::new(a, b), adjust) *)",
+           "Definition ainexact_se (se : Z * Z) (r : rounding) : approx := AInexact (fst se) (snd se) r.", ""]
     fbig = r"\bimpl\s*<\s*R\s*:\s*Round\s*,\s*const\s+B\s*:\s*Word\s*>\s*FBig\s*<\s*R\s*,\s*B\s*>\s*\{"
     # split_at_point_internal first: the others call it
     body = method_body(osrc, fbig, "split_at_point_internal", "round_ops.rs impl FBig")
@@ -353,6 +378,24 @@ def render_ops(repo):
     out.append("Definition to_int_gen (m : mode) (p s e : Z) : result iapprox :=\n  %s.\n" % tr(fb, "fbig", "FBig::to_int", mode_var="m"))
     rb = re.sub(r"\bassert_finite\s*\(\s*self\s*\)", "assert_finite(&self.repr)", rb)
     out.append("Definition repr_to_int_gen (s e : Z) : result iapprox :=\n  %s.\n" % tr(rb, "repr", "Repr::to_int"))
+    # repr.rs: Context::repr_round / repr_round_ref (digit removal + adjustment), convert.rs: when with_precision rounds
+    rsrc = R3.strip_comments(R3.read(repo, "float/src/repr.rs"))
+    for name in ("repr_round", "repr_round_ref"):
+        body = R3.fn_block(rsrc, name, "repr.rs")
+        out.append("Definition %s_gen (p : Z) (m : mode) (s e : Z) : result approx :=\n  %s.\n" % (name, tr(body, "ctx", "Context::" + name, mode_var="m")))
+    body = R3.fn_block(csrc, "with_precision", "convert.rs")
+    mm = re.search(r"\blet\s+repr\s*=\s*if\s+(.*?)\{\s*new_context\s*\.\s*repr_round\s*\(\s*self\s*\.\s*repr\s*\)\s*\}\s*else\s*\{\s*Exact\s*\(\s*self\s*\.\s*repr\s*\)\s*\}", body, flags=re.S)
+    if not mm:
+        raise Unparsed("with_precision: `let repr = if <cond> { new_context.repr_round(self.repr) } else { Exact(self.repr) }` not found")
+    try:
+        g = Cps("fbig")
+        g.env["precision"] = ("np", "Z")
+        cv, ct = g.pure(T.parse_expr_or_block(mm.group(1))[2])
+        if ct != "bool":
+            raise T.Unsupported("condition of type " + ct)
+    except (T.Unsupported, SyntaxError, LookupError, ValueError, IndexError, TypeError, KeyError, RecursionError) as ex:
+        raise Unparsed("with_precision condition: %s" % re.sub(r"\s+", " ", str(ex))[:120])
+    out.append("Definition with_precision_rounds_gen (p np : Z) : bool :=\n  %s.\n" % cv)
     out.append("End RoundOpsGen.")
     return "\n".join(out) + "\n"
 
